@@ -2,6 +2,7 @@ SPECIFICATION Spec
 CONSTANTS
  Hs = {h1, h2}
  Threads = 1
+ Pinned = FALSE
  Dev = {}
 INVARIANTS NeverStuck NoSuspendedOwner
 PROPERTY Terminates
